@@ -143,6 +143,21 @@ impl Shape {
         }
     }
 
+    /// `points()` observed through count / last / nth / size_hint (see util::iter_protocol)
+    pub fn points_protocol(&self, stride: usize) -> Value {
+        match self {
+            Shape::Rect(s) => iter_protocol(|| s.points(), stride),
+            Shape::Circle(s) => iter_protocol(|| s.points(), stride),
+            Shape::Ellipse(s) => iter_protocol(|| s.points(), stride),
+            Shape::RRect(s) => iter_protocol(|| s.points(), stride),
+            Shape::Triangle(s) => iter_protocol(|| s.points(), stride),
+            Shape::Sector(s, ..) => iter_protocol(|| s.points(), stride),
+            Shape::Arc(s, ..) => iter_protocol(|| s.points(), stride),
+            Shape::Line(s) => iter_protocol(|| s.points(), stride),
+            Shape::Polyline(v, off) => iter_protocol(|| Polyline::new(v).translate(*off).points(), stride),
+        }
+    }
+
     pub fn translate(&self, d: Point) -> Shape {
         match self {
             Shape::Rect(s) => Shape::Rect(s.translate(d)),
